@@ -7,7 +7,7 @@ from terms import expand
 SPEC_PATH = '/verif/tables/spec_layout.json'
 KEEP_DECISIONS = ('flag', 'val', 'loop')
 NO_INLINE = {'asefile::pixel::output_size', 'asefile::file::PixelFormat::bytes_per_pixel'} | {
-    'asefile::reader::AseReader::' + k for k in ('byte', 'word', 'short', 'dword', 'long', 'string', 'read_exact',
+    'asefile::reader::AseReader::' + k for k in ('byte', 'word', 'short', 'dword', 'long', 'string', 'read_exact', 'read_vec',
                                                    'skip_reserved', 'take_bytes', 'unzip', 'new', 'with')}
 
 
